@@ -15,7 +15,7 @@ import sys
 import time
 
 VERIF = os.path.dirname(os.path.dirname(os.path.abspath(__file__)))
-SEEDED = os.path.join(VERIF, 'seeded')
+SEEDED = os.environ.get('LV_SEEDED_DIR', os.path.join(VERIF, 'seeded'))      # (harmless refactorings live in /verif/harmless)
 REPO = '/repo'
 PY = '/venv/bin/python'
 
@@ -61,7 +61,8 @@ def cmd_import(src, name):
     dst = os.path.join(SEEDED, name)
     os.makedirs(dst, exist_ok=True)
     for f in ('patch.diff', 'demo.py', 'meta.json'):
-        shutil.copy(os.path.join(src, f), os.path.join(dst, f))
+        if os.path.exists(os.path.join(src, f)):
+            shutil.copy(os.path.join(src, f), os.path.join(dst, f))
     meta = load_meta(name)
     meta['origin'] = 'fresh sub-agent given only the property text and its own scratch worktree'
     save_meta(name, meta)
